@@ -31,7 +31,7 @@ Open Scope Z_scope.
 def build(nphys, instrs):
     from qiskit import QuantumCircuit
     ncl = max([1] + [i[2] + 1 for i in instrs if i[0] == "measure"])
-    qc = QuantumCircuit(nphys, ncl)
+    qc = QuantumCircuit(nphys, ncl, name="circ")
     for name, qs, extra in instrs:
         if name == "rz": qc.rz(extra / 8.0, qs[0])
         elif name == "sx": qc.sx(qs[0])
